@@ -26,7 +26,7 @@ CHECKS["C12"] = dict(
    ref="DESIGN.md section 3 (C12)")
 CHECKS["C13"] = dict(
    technique="metamorphic property-based testing: one generated model IR emitted in two spellings, oracle = equal verdict and byte-identical generated trees / identical embedded schemas",
-   text="Exploration: a generated model is written twice - plain vs randomly respelled at every decision point (shorthand/expanded per type node, primitive alias names, [null,T], !generic, quoting, flow/block, dimension syntaxes, noise comments and blank lines), or in a random definition order (uniform permutations, dependents-first orders, and a local type that is used only as a type argument of an imported generic placed after its user) and file distribution. Oracle: same accept/reject verdict (1 in 5 models carries an injected violation); pure-syntax respelling => every generated C++/Python/MATLAB file byte-identical; reorder/re-split => the schema literal of every protocol identical in the C++, Python and MATLAB output, and the generated Python package imports for one ordering iff it does for the other; one case in eight takes the model from the run-time generator together with value sequences, generates both layouts and requires the Python code generated from each to copy the same reference-encoded streams to byte-identical binary and NDJSON output that decodes to the original values (identical wire behaviour).",
+   text="Exploration: a generated model is written twice - plain vs randomly respelled at every decision point (shorthand/expanded per type node, primitive alias names, [null,T], !generic, quoting, flow/block, dimension syntaxes, noise comments and blank lines), or in a random definition order (uniform permutations, dependents-first orders, and a local type that is used only as a type argument of an imported generic placed after its user) and file distribution. Oracle: same accept/reject verdict (1 in 5 models carries an injected violation); pure-syntax respelling => every generated C++/Python/MATLAB file byte-identical; reorder/re-split => the schema literal of every protocol identical in the C++, Python and MATLAB output, and the generated Python package imports for one ordering iff it does for the other; one case in eight takes the model from the run-time generator together with value sequences, generates both layouts and requires the Python code generated from each to copy the same reference-encoded streams to byte-identical binary and NDJSON output (identical wire behaviour; that the common output is the right one is C01/C02's subject).",
    note="trusted: the harness's YAML emitter really produces equivalent spellings (validated by the generator-soundness self test); the wire behaviour of re-ordered models is compared through generated Python only; generated C++ of shuffled orderings is compiled by C08 and exercised by C01/C03",
    ref="DESIGN.md section 3 (C13)")
 CHECKS["C06"] = dict(
